@@ -110,7 +110,57 @@ def interesting(before, ev):
     return sub or len(older) >= 2 or (bool(newer) and bool(older))
 
 
+async def run_burst(history):
+    """LMDB: the whole history is submitted before the writer thread applies anything (a backlogged writer)"""
+    viol = []
+    async with H.Rig("kv", validators=[]) as rig:
+        half = len(history) // 2
+        for ev in history[:half]:
+            await rig.add(ev)
+        before = await rig.dump()
+        burst = []
+        seen = set(before)
+        for ev in history[half:]:
+            ok, reason = await rig.add(ev, pump=False)
+            if ok and ev["id"] not in seen:
+                burst.append(ev)
+                seen.add(ev["id"])
+        rig.pump()
+        await rig.settle()
+        after = await rig.dump()
+        nt = False
+        for r in (e for i, e in before.items() if i not in after):
+            if not any(R.address(r) is not None and R.address(r) == R.address(ev) and r["created_at"] <= ev["created_at"]
+                       and r["id"] != ev["id"] for ev in burst):
+                viol.append(V("kv-wrongly-removed:burst", "accepting events never removes an event of another address or a newer version",
+                              removed=r, burst=[e["id"][:8] for e in burst]))
+        order = {e["id"]: j for j, e in enumerate(burst)}
+        for ev in burst:
+            addr = R.address(ev)
+            if addr is None:
+                continue
+            for i, e in after.items():
+                arrived_before = i in before or order.get(i, 10**9) < order[ev["id"]]
+                if i != ev["id"] and R.address(e) == addr and e["created_at"] < ev["created_at"] and arrived_before:
+                    nt = True
+                    viol.append(V("kv-older-version-kept:burst", "older events of the same address are removed, also when several versions are queued together",
+                                  event=ev, kept=e))
+            if sum(1 for e in burst if R.address(e) == addr) >= 2:
+                nt = True
+        allv = {}
+        for e in list(before.values()) + burst:
+            if R.address(e) is not None:
+                allv.setdefault(R.address(e), []).append(e)
+        for a, evs in allv.items():
+            top = max(e["created_at"] for e in evs)
+            if not any(e["id"] in after for e in evs if e["created_at"] == top):
+                viol.append(V("kv-newest-removed:burst", "the newest version of an address is never removed", address=list(a)))
+    return Result(viol[:3], nt, ["backend:kv", "burst"])
+
+
 async def run_history(backend, history):
+    if backend == "kv-burst":
+        return await run_burst(history)
     viol = []
     nt = False
     labels = ["backend:" + backend]
@@ -147,7 +197,7 @@ class Replace(Sub):
     rule = RULE
 
     def strategy(self, tier):
-        return st.tuples(st.sampled_from(["kv", "sql"]), st_history(9 if tier == "quick" else 16)).map(list)
+        return st.tuples(st.sampled_from(["kv", "sql", "kv-burst"]), st_history(9 if tier == "quick" else 16)).map(list)
 
     def run_case(self, case):
         return H.run(run_history, case[0], case[1])
